@@ -433,77 +433,107 @@ def body_one_word(case, ctx):
 
 # ---------------------------------------------------------------------------
 # law 5: even-length variant
-def even_body(case, ctx):
-    S = Setup(case, ctx)
-    L = case["L"]
-    L -= L % 2
-    S.label(ctx, L)
-    spheres = S.tits.ball(L)
-    for shortlex in (True, False):
-        base = S.G.automaton(shortlex=shortlex)
-        ev = S.G.automaton(shortlex=shortlex, even_length=True)
-        tag = "shortlex" if shortlex else "geodesic"
+def even_body(part):
+    def body(case, ctx):
+        S = Setup(case, ctx)
+        L = case["L"]
+        L -= L % 2
+        S.label(ctx, L)
+        spheres = S.tits.ball(L)
 
         def chunks(u):
             ws = S.w(u)
             return [ws[i] + ws[i + 1] for i in range(0, len(ws), 2)]
-        want = collections.Counter()
-        for k in range(0, L + 1, 2):
-            for name, cls in spheres[k].items():
-                for u in ([name] if shortlex else cls):
-                    want["".join(S.w(u))] += 1
-        # 1. membership queries first (they must not depend on, nor disturb, the automaton)
-        snapshot = {v: dict(nb) for v, nb in ev.graph_dict.items()}
-        for k in range(0, L + 1, 2):
-            for name, cls in spheres[k].items():
-                desc = {u[-1] for u in cls if u}
-                for u in cls:
-                    good = (u == name) if shortlex else True
-                    got = accepts(ev, chunks(u))
-                    if got != good:
-                        ctx.fail("even-length %s automaton %s an even-length word that the base "
-                                 "automaton %s" % (tag, "accepts" if got else "rejects",
-                                                   "accepts" if good else "rejects"),
-                                 word=chunks(u), matrix=S.m)
-                    ctx.units += 1
-                    if good:
+        for shortlex in (True, False):
+            base = S.G.automaton(shortlex=shortlex)
+            ev = S.G.automaton(shortlex=shortlex, even_length=True)
+            tag = "shortlex" if shortlex else "geodesic"
+            if part == "language":
+                want = collections.Counter()
+                for k in range(0, L + 1, 2):
+                    for name, cls in spheres[k].items():
+                        for u in ([name] if shortlex else cls):
+                            want["".join(S.w(u))] += 1
+                # 1. membership queries
+                for k in range(0, L + 1, 2):
+                    for name, cls in spheres[k].items():
+                        desc = {u[-1] for u in cls if u}
+                        for u in cls:
+                            good = (u == name) if shortlex else True
+                            got = accepts(ev, chunks(u))
+                            if got != good:
+                                ctx.fail("even-length %s automaton %s an even-length word that "
+                                         "the base automaton %s" % (
+                                             tag, "accepts" if got else "rejects",
+                                             "accepts" if good else "rejects"),
+                                         word=chunks(u), matrix=S.m)
+                            ctx.units += 1
+                        # accepted word + two letters of which the last one spoils it
+                        u = name if shortlex else max(cls)
+                        for s in range(S.n):
+                            if s in desc:
+                                continue
+                            w = u + (s, s)                      # ... s s is never reduced
+                            got = accepts(ev, chunks(w))
+                            ctx.check(got is False, "even-length %s automaton accepts a word "
+                                      "ending in a repeated generator" % tag, word=chunks(w),
+                                      matrix=S.m)
+                # 2. its enumeration
+                got = collections.Counter(ev.enumerate_words(L // 2))
+                if got != want:
+                    ctx.fail("language of the even-length %s automaton is not the set of "
+                             "even-length words of the base language" % tag,
+                             missing=sorted((want - got).elements())[:6],
+                             extra=sorted((got - want).elements())[:6], matrix=S.m)
+                ctx.units += 1
+                # every label is a two-generator word
+                for v, nb in ev.graph_dict.items():
+                    for lab in nb:
+                        c = S.cut(lab)
+                        ctx.check(c is not None and len(c) == 2, "labels of the even automaton "
+                                  "are two-letter words", label=lab)
+                # against the base automaton's own enumeration
+                base_even = collections.Counter(w for w in base.enumerate_words(L)
+                                                if (len(w) // S.width) % 2 == 0)
+                ctx.check(got == base_even, "even automaton vs even-length words enumerated by "
+                          "the base automaton")
+            else:
+                # words that leave the language and go on: the answer is False (no exception),
+                # follow_word raises FSAException, and no query changes the automaton
+                snapshot = {v: dict(nb) for v, nb in ev.graph_dict.items()}
+                nverts = len(list(ev.vertices()))
+                any_label = S.names[0] + S.names[-1]
+                for k in range(0, L + 1, 2):
+                    for name, cls in spheres[k].items():
+                        desc = {u[-1] for u in cls if u}
+                        u = name if shortlex else max(cls)
                         ctx.check(ev.follow_word(chunks(u)) == base.follow_word(S.w(u)),
                                   "even automaton reaches the state of the base automaton",
                                   word=chunks(u))
-                if k + 2 > L + 2:
-                    continue
-                # accepted word + two letters of which the last one spoils it
-                u = name if shortlex else max(cls)
-                for s in range(S.n):
-                    if s in desc:
-                        continue
-                    w = u + (s, s)                      # ... s s is never reduced
-                    for tail in ([], [S.names[0] + S.names[-1]]):
-                        got = accepts(ev, chunks(w) + tail)
-                        ctx.check(got is False, "even-length %s automaton accepts a word ending "
-                                  "in a repeated generator" % tag, word=chunks(w) + tail,
-                                  matrix=S.m)
-        after = {v: dict(nb) for v, nb in ev.graph_dict.items()}
-        ctx.check(after == snapshot, "membership queries changed the even-length automaton")
-        # 2. its enumeration
-        got = collections.Counter(ev.enumerate_words(L // 2))
-        if got != want:
-            ctx.fail("language of the even-length %s automaton is not the set of even-length "
-                     "words of the base language" % tag,
-                     missing=sorted((want - got).elements())[:6],
-                     extra=sorted((got - want).elements())[:6], matrix=S.m)
-        ctx.units += 1
-        # every label is a two-generator word
-        for v, nb in ev.graph_dict.items():
-            for lab in nb:
-                c = S.cut(lab)
-                ctx.check(c is not None and len(c) == 2, "labels of the even automaton are "
-                          "two-letter words", label=lab)
-        # against the base automaton's own enumeration
-        base_even = collections.Counter(w for w in base.enumerate_words(L)
-                                        if (len(w) // S.width) % 2 == 0)
-        ctx.check(got == base_even, "even automaton vs even-length words enumerated by the base "
-                  "automaton")
+                        for s in range(S.n):
+                            if s in desc:
+                                continue
+                            w = u + (s, s)
+                            for tail in ([any_label], [any_label, any_label]):
+                                word = chunks(w) + tail
+                                got = accepts(ev, word)
+                                ctx.check(got is False, "even-length %s automaton accepts a word "
+                                          "with a non-reduced prefix" % tag, word=word,
+                                          matrix=S.m)
+                                try:
+                                    ev.follow_word(word)
+                                    ctx.fail("follow_word on a rejected word did not raise",
+                                             word=word)
+                                except FSAException:
+                                    ctx.units += 1
+                after = {v: dict(nb) for v, nb in ev.graph_dict.items()}
+                ctx.check(after == snapshot and len(list(ev.vertices())) == nverts,
+                          "membership queries changed the even-length automaton")
+                ctx.check(collections.Counter(ev.enumerate_words(L // 2)) ==
+                          collections.Counter(w for w in base.enumerate_words(L)
+                                              if (len(w) // S.width) % 2 == 0),
+                          "language of the even automaton after the queries")
+    return body
 
 
 # ---------------------------------------------------------------------------
@@ -713,8 +743,10 @@ LAWS = [
          shards=(1, 4), exhaustive=exhaustive_domains()),
     _law("one_word_per_element", coxeter_case(), body_one_word, nt, quick=40, thorough=300,
          shards=(1, 4), exhaustive=exhaustive_domains()),
-    _law("even_variant", coxeter_case(), even_body, nt, quick=40, thorough=300, shards=(1, 4),
-         exhaustive=exhaustive_domains()),
+    _law("even_variant", coxeter_case(), even_body("language"), nt, quick=40, thorough=300,
+         shards=(1, 4), exhaustive=exhaustive_domains()),
+    _law("even_variant_queries", coxeter_case(), even_body("queries"), nt, quick=40, thorough=300,
+         shards=(1, 4), exhaustive=exhaustive_domains()),
     _law("growth_series", coxeter_case(), body_growth, nt, quick=40, thorough=300, shards=(1, 4),
          exhaustive=exhaustive_domains()),
     _law("faithful_images_distinct", coxeter_case(), body_images, nt, quick=40, thorough=300,
